@@ -1,240 +1,673 @@
 """C27 -- non-aggregate ctypes are canonical over any history (engine E2).
 
-Histories of building types (type strings through fresh in-line FFIs, through
-fresh compiled-style _cffi_backend.FFI objects, and through the new_*_type
-constructors), dropping them, collecting, making pointer<->array ctypes cyclic
-by slicing a pointer cdata, and dropping a type that is watched by a user
-weakref whose callback rebuilds the very same type.  After every step: two live
-ctype objects are the same object iff they have the same structural key, and
-rebuilding a live type returns that object.
+Histories of building types (type strings in several spellings through fresh and through long-lived in-line FFIs,
+compiled-style _cffi_backend.FFI objects and instances of a generated out-of-line module; the new_*_type
+constructors, with every ABI libffi accepts here; navigation: slicing, addressof, typeof(lib.func)), dropping them,
+dropping the FFI objects that hold them, collecting (full and young-generation), making pointer<->array ctypes cyclic
+by slicing a pointer cdata, and dropping a type that is watched by a user weakref whose callback rebuilds the same
+type or a type that depends on it.  After every step: two live ctype objects are the same object iff they have the
+same structural key, rebuilding a live type returns that object, and the components a type reports (.item, .args,
+.result, .ellipsis, .abi, .length) are the canonical objects too.
+
+The families are separate finite alphabets (see PLAN below); each one is explored exhaustively to its depth.
 """
+import collections
 import gc as _gc
+import time
 import weakref
 
 from .. import hist
+from .. import pool
 from ..build import InfraError
+from . import _c27types as T
 
 ID = "C27"
 LEVEL = "model_checking"
 META = dict(
     engine="E2-hist", level="model_checking",
-    technique="explicit-state breadth-first search over build/drop/collect/slice/watch histories of real ctype objects, "
-              "against a structural-identity model (same key <=> same object among live types)",
-    text="All histories up to depth 4 (quick; thorough 5, merged beyond the unmerged depth) over 4 slots: 12 type "
-         "expressions (primitives, pointers, pointer-to-pointer, arrays with and without length, function types with "
-         "and without ellipsis) built three independent ways, drop, gc.collect(), slicing a pointer cdata (creates the "
-         "pointer<->array reference cycle, so the types die in the collector, not by refcount) and a user weakref "
-         "whose callback rebuilds the dying type (the single-threaded way into the 'already replaced by a live "
-         "weakref' arm of the cache clean-up).",
-    note="automatic GC is disabled during the search so that collections happen exactly where a history says")
+    technique="explicit-state breadth-first search over build/drop/collect/slice/watch/drop-FFI histories of real "
+              "ctype objects, against a structural-identity model (same key <=> same object among live types)",
+    text="All histories over 4 slots, in 8 exhaustively explored families: (all) 36 type expressions -- primitives, "
+         "void, pointers (to pointers, void, arrays, two distinct 'struct S', an enum), arrays (open, 0, nested, of "
+         "structs), function types (0-2 arguments, ellipsis, struct by value, function-pointer argument, "
+         "pointer-to-array result, 3 ABIs) -- built by the constructors and through both parsers, depth 2 (thorough: "
+         "the 15 base+ABI ones and the 17 shapes also at depth 3); (small) 4 expressions to depth 4 (thorough 5) with "
+         "slicing a pointer cdata (pointer<->array reference cycle: the types die in the collector, not by refcount) "
+         "and a user weakref whose callback rebuilds the dying type; (abi) function types that differ only in ABI "
+         "and/or ellipsis to depth 3 (4); (holders) long-lived in-line FFI, C-level FFI and generated-module FFI "
+         "objects that keep what they parsed, typeof(lib.func), drop of the FFI, young-generation collections, depth "
+         "3 (4); (spell) per type every spelling (qualifiers, hex/octal/expression lengths, parameter names, array "
+         "and function parameters that decay, (void), __stdcall, typedef names) through 5 parser routes, pairs "
+         "(thorough: triples on the shared routes); (watch) weakref callbacks rebuilding the dying type through the "
+         "constructors, through the in-line route, or a pointer/array type that depends on it, with the array type "
+         "of a slice kept, depth 4 (5); (nav) types reached by slicing and addressof; (population) 100 and 3000 "
+         "array / pointer-chain / function types, half dropped, collected, rebuilt after the freed addresses were "
+         "reused.  Every ctype ever built is also followed by a weak reference: while it is alive for whatever "
+         "reason (cycle, FFI cache, module table) a rebuild must return it.",
+    note="automatic GC is disabled during the search so that collections happen exactly where a history says; "
+         "expected wall time on the idle 16-core machine: quick about 70 s, thorough about 10 min")
 
-# type expressions: key -> (type string, constructor recipe)
-TYPES = [
-    ("int", "int"), ("char", "char"),
-    ("int*", "int *"), ("char*", "char *"), ("int**", "int * *"),
-    ("int[2]", "int[2]"), ("int[]", "int[]"), ("int*[2]", "int *[2]"),
-    ("int(*)(int)", "int(*)(int)"), ("int(*)(int,...)", "int(*)(int, ...)"),
-    ("char(*)(int)", "char(*)(int)"), ("int(*)(int*)", "int(*)(int *)"),
-]
-TSTR = dict(TYPES)
 NSLOT = 4
+TERMS, NAMES = T.TERMS, T.NAMES
+_CURRENT = None                    # weakref to the system most recently created in this process
+COUNT = collections.Counter()      # in-process class counters (read by run() after a small in-process exploration)
 
 
-def construct(key):
-    """Build through the backend constructors only (no parser involved)."""
-    import _cffi_backend as B
-    i, c = B.new_primitive_type("int"), B.new_primitive_type("char")
-    if key == "int":
-        return i
-    if key == "char":
-        return c
-    if key == "int*":
-        return B.new_pointer_type(i)
-    if key == "char*":
-        return B.new_pointer_type(c)
-    if key == "int**":
-        return B.new_pointer_type(B.new_pointer_type(i))
-    if key == "int[2]":
-        return B.new_array_type(B.new_pointer_type(i), 2)
-    if key == "int[]":
-        return B.new_array_type(B.new_pointer_type(i), None)
-    if key == "int*[2]":
-        return B.new_array_type(B.new_pointer_type(B.new_pointer_type(i)), 2)
-    if key == "int(*)(int)":
-        return B.new_function_type((i,), i, False)
-    if key == "int(*)(int,...)":
-        return B.new_function_type((i,), i, True)
-    if key == "char(*)(int)":
-        return B.new_function_type((i,), c, False)
-    if key == "int(*)(int*)":
-        return B.new_function_type((B.new_pointer_type(i),), i, False)
-    raise InfraError(key)
+def _sliceable(key):
+    t = TERMS[key]
+    return t[0] == "ptr" and NAMES.get(T.Arr(t[1], None)) is not None and t[1][0] in ("prim", "ptr")
 
 
-def build_via(key, via):
-    if via in ("ctor-arr", "ctor-arr5"):
-        # function types whose argument is given as an ARRAY ctype: it decays to the pointer type,
-        # so the result must be the canonical type with the pointer argument
-        import _cffi_backend as B
-        i, c = B.new_primitive_type("int"), B.new_primitive_type("char")
-        if key == "int(*)(int*)":
-            arr = B.new_array_type(B.new_pointer_type(i), None if via == "ctor-arr" else 5)
-            return B.new_function_type((arr,), i, False)
-        return construct(key)
-    if via == "ctor":
-        return construct(key)
-    if via == "inline":
-        import cffi
-        return cffi.FFI().typeof(TSTR[key])
-    if via == "compiled":
-        import _cffi_backend as B
-        return B.FFI().typeof(TSTR[key])
-    raise InfraError(via)
+def _derived(key, what):
+    """Key of the type a watcher's callback builds when the watched `key` dies (None: not in the table)."""
+    if what == "same-ctor":
+        return key
+    if what == "same-inline":
+        return key if key in T.PLAIN else None
+    if what == "pointer-to":
+        return NAMES.get(T.Ptr(TERMS[key]))
+    if what == "array-of":
+        return NAMES.get(T.Arr(TERMS[key], 2))
+    raise InfraError(what)
+
+
+_BUILDS = {}
+
+
+def _build_ops(keys, vias, spell):
+    ck = (tuple(keys), tuple(vias), bool(spell))
+    if ck not in _BUILDS:
+        ops = []
+        for k in keys:
+            for via in vias:
+                sp = T.spellings(k, via)
+                for n in range(len(sp) if spell else min(1, len(sp))):
+                    ops.append(("build", k, via, n))
+        _BUILDS[ck] = ops
+    return _BUILDS[ck]
+
+
+DEFAULT_VIAS = ["ctor", "inline", "compiled", "ctor-arr", "ctor-arr5"]
+DEFAULT_OPS = ["slice", "watch:same-ctor"]
+ALL_OPS = ["slice", "slicekeep", "watch:same-ctor", "watch:same-inline", "watch:pointer-to", "watch:array-of",
+           "collect0", "dropall", "dropffi"]
 
 
 class Sys(object):
     def __init__(self, cfg):
+        # start clean.  The explorer builds the next system while the previous one still exists, and it does not
+        # close() a system whose state was merged; what such a system holds (ctypes in its slots, FFI objects in
+        # reference cycles with the ctypes they cache) would decide whether a type of THIS system dies when it is
+        # dropped, i.e. whether a watcher's callback runs: the model would not be a function of the history any more.
+        global _CURRENT
+        old = _CURRENT() if _CURRENT is not None else None
+        if old is not None:
+            old._dispose()
+        del old
+        _gc.collect()
+        _CURRENT = weakref.ref(self)
+        self.cfg = cfg
         self.keys_alpha = cfg["keys"]
+        self.vias = cfg.get("vias", DEFAULT_VIAS)
+        self.x = cfg.get("ops", DEFAULT_OPS)
+        self.whats = [o.split(":", 1)[1] for o in self.x if o.startswith("watch:")]
+        self.builds = _build_ops(self.keys_alpha, self.vias, cfg.get("spell", False))
+        self.env = T.Env()
         self.slots = [None] * NSLOT
         self.mkeys = [None] * NSLOT
-        self.watch = {}        # slot -> weakref (kept so that the callback stays armed)
+        self.watch = {}        # slot -> (weakref kept so that the callback stays armed, key, what)
         self.sliced = set()
+        self.limbo = set()     # model: keys of dropped types that sit in a reference cycle until the next collection
+        self.holders = {}      # via -> long-lived FFI object
+        self.held = {}         # via -> set of keys built through that FFI (model)
+        self.ghosts = []       # (key, callback-less weakref) of every ctype this system ever obtained
         self.pending = []      # violations noticed inside weakref callbacks
 
+    def _dispose(self):
+        self.watch.clear()              # disarm first: no callback may run any more
+        self.slots = [None] * NSLOT
+        self.mkeys = [None] * NSLOT
+        self.holders.clear()
+        self.held.clear()
+        self.ghosts = []
+        self.env = None
+
+    # ---- alphabet -------------------------------------------------------------------------------
     def enabled(self):
         ops = []
         free = [i for i in range(NSLOT) if self.mkeys[i] is None]
         if free:
-            for k in self.keys_alpha:
-                for via in ("ctor", "inline", "compiled"):
-                    ops.append(("build", k, via))
-                if k == "int(*)(int*)":
-                    ops.append(("build", k, "ctor-arr"))
-                    ops.append(("build", k, "ctor-arr5"))
+            ops.extend(self.builds)
         for i in range(NSLOT):
-            if self.mkeys[i] is None:
+            k = self.mkeys[i]
+            if k is None:
                 continue
             ops.append(("drop", i))
-            if self.mkeys[i] in ("int*", "char*", "int**") and i not in self.sliced:
-                ops.append(("slice", i))
+            if _sliceable(k):
+                if "slice" in self.x and i not in self.sliced:
+                    ops.append(("slice", i))
+                if "slicekeep" in self.x and free:
+                    ops.append(("slicekeep", i))
             if len(free) >= 1 and i not in self.watch:
-                ops.append(("watch", i))
+                for what in self.whats:
+                    if _derived(k, what) is not None:
+                        ops.append(("watch", i, what))
         ops.append(("collect",))
+        if "collect0" in self.x:
+            ops.append(("collect", 0))
+        if "dropall" in self.x and len(free) < NSLOT:
+            ops.append(("dropall",))
+        if "dropffi" in self.x:
+            for h in T.HOLDERS:
+                if h in self.holders:
+                    ops.append(("dropffi", h))
         return ops
 
+    # ---- building -------------------------------------------------------------------------------
+    def construct(self, key):
+        return T.construct(key, self.env)
+
+    def holder(self, via):
+        if via not in self.holders:
+            import _cffi_backend as B
+            if via == "inline-shared":
+                import cffi
+                f = cffi.FFI()
+                f.cdef(T.CDEF)
+            elif via == "compiled-shared":
+                f = B.FFI()
+            elif via == "module":
+                f = T.new_module_ffi()
+            else:
+                raise InfraError(via)
+            self.holders[via] = f
+            self.held[via] = set()
+        return self.holders[via]
+
+    def build_via(self, key, via, sp=0):
+        import _cffi_backend as B
+        if via == "ctor":
+            return self.construct(key)
+        if via in ("ctor-arr", "ctor-arr5"):
+            # function types whose argument is given as an ARRAY ctype: it decays to the pointer type,
+            # so the result must be the canonical type with the pointer argument
+            if key == "int(*)(int*)":
+                i = B.new_primitive_type("int")
+                arr = B.new_array_type(B.new_pointer_type(i), None if via == "ctor-arr" else 5)
+                return B.new_function_type((arr,), i, False)
+            return self.construct(key)
+        if via == "module-func":
+            if key != "int(*)(int)":
+                raise InfraError((key, via))
+            m = self.holder("module")
+            self.held["module"].add(key)
+            return B.typeof(m.dlopen(None).abs)
+        if via == "addressof":
+            arr = self.construct(NAMES[TERMS[key][1]])
+            return B.typeof(B.FFI().addressof(B.newp(arr, None)))
+        s = T.spellings(key, via)[sp]
+        if via == "inline":
+            import cffi
+            return cffi.FFI().typeof(s)
+        if via == "compiled":
+            return B.FFI().typeof(s)
+        f = self.holder(via)
+        self.held[via].add(key)
+        return f.typeof(s)
+
+    def _obtained(self, obj, key):
+        self.ghosts.append((key, weakref.ref(obj)))    # the very weakref object the unique cache uses: no new state
+
+    # ---- operations -----------------------------------------------------------------------------
     def apply(self, op):
         try:
             self._apply(op)
         except InfraError:
             raise
         except Exception as e:
-            return {"kind": "exception", "op": op, "error": "%s: %s" % (type(e).__name__, e)}
+            return self._info({"kind": "exception", "op": op, "error": "%s: %s" % (type(e).__name__, e)})
         if self.pending:
-            return self.pending.pop(0)
-        return self._check()
+            return self._info(self.pending.pop(0))
+        return self._info(self._check())
+
+    def _info(self, info):
+        if info is not None:
+            info["cfg"] = self.cfg
+        return info
+
+    def _drop(self, i):
+        if self.mkeys[i] is None:
+            return
+        if i in self.sliced or TERMS[self.mkeys[i]][0] == "arr" and TERMS[self.mkeys[i]][2] is None:
+            self.limbo.add(self.mkeys[i])
+        self.mkeys[i] = None
+        self.sliced.discard(i)
+        self.slots[i] = None            # may run a watcher callback right here
 
     def _apply(self, op):
+        import _cffi_backend as B
         k = op[0]
         if k == "build":
             i = [j for j in range(NSLOT) if self.mkeys[j] is None][0]
-            self.slots[i] = build_via(op[1], op[2])
+            obj = self.build_via(op[1], op[2], op[3] if len(op) > 3 else 0)
+            self.slots[i] = obj
             self.mkeys[i] = op[1]
+            self._obtained(obj, op[1])
         elif k == "drop":
-            i = op[1]
-            self.mkeys[i] = None
-            self.sliced.discard(i)
-            self.slots[i] = None            # may run a watcher callback right here
-        elif k == "collect":
+            self._drop(op[1])
+        elif k == "dropall":
+            for i in range(NSLOT):
+                self._drop(i)
             _gc.collect()
-        elif k == "slice":
-            import _cffi_backend as B
+            self.limbo.clear()
+        elif k == "collect":
+            if len(op) > 1:
+                _gc.collect(op[1])      # young generation only: frees what it frees, nothing is predicted
+            else:
+                _gc.collect()
+                self.limbo.clear()
+        elif k == "dropffi":
+            self.held.pop(op[1], None)
+            self.holders.pop(op[1], None)
+        elif k in ("slice", "slicekeep"):
             i = op[1]
             p = B.cast(self.slots[i], 0)
             arr = p[0:0]                    # realises P's cached array type: P <-> P[] cycle
+            if k == "slicekeep":
+                # the array ctype reached by navigation is a live ctype like any other
+                akey = NAMES[T.Arr(TERMS[self.mkeys[i]][1], None)]
+                j = [j for j in range(NSLOT) if self.mkeys[j] is None][0]
+                self.slots[j] = B.typeof(arr)
+                self.mkeys[j] = akey
+                self._obtained(self.slots[j], akey)
             del arr, p
             self.sliced.add(i)
         elif k == "watch":
-            i = op[1]
-            key = self.mkeys[i]
-            sysref = self
-
-            def cb(ref, key=key, i=i):
-                # the watched ctype is dying: rebuild the very same type right now
-                sysref.watch.pop(i, None)
-                free = [j for j in range(NSLOT) if sysref.mkeys[j] is None and sysref.slots[j] is None]
-                if not free:
-                    return
-                j = free[-1]
-                t = construct(key)
-                if ref() is not None:
-                    sysref.pending.append({"kind": "weakref-alive-in-callback"})
-                sysref.slots[j] = t
-                sysref.mkeys[j] = key
-            self.watch[i] = weakref.ref(self.slots[i], cb)
+            self._watch(op[1], op[2] if len(op) > 2 else "same-ctor")
         else:
             raise InfraError(op)
 
+    def _watch(self, i, what):
+        key = self.mkeys[i]
+        nkey = _derived(key, what)
+        sysref = self
+
+        def cb(ref):
+            # the watched ctype is dying: rebuild the very same type (or one that depends on it) right now
+            try:
+                sysref.watch.pop(i, None)
+                COUNT["callback_fired:" + what] += 1
+                free = [j for j in range(NSLOT) if sysref.mkeys[j] is None and sysref.slots[j] is None]
+                if not free:
+                    return
+                j = i if i in free else free[-1]      # (independent of the order of two callbacks in one collection)
+                if what == "same-inline":
+                    import cffi
+                    t = cffi.FFI().typeof(T.PLAIN[key][0])
+                else:
+                    t = sysref.construct(nkey)
+                if ref() is not None:
+                    sysref.pending.append({"kind": "weakref-alive-in-callback"})
+                sysref.slots[j] = t
+                sysref.mkeys[j] = nkey
+                sysref._obtained(t, nkey)
+            except InfraError:
+                raise
+            except Exception as e:
+                sysref.pending.append({"kind": "exception-in-callback", "what": what,
+                                       "error": "%s: %s" % (type(e).__name__, e)})
+        self.watch[i] = (weakref.ref(self.slots[i], cb), key, what)
+
+    # ---- the oracle -----------------------------------------------------------------------------
     def _check(self):
+        import _cffi_backend as B
         live = [(i, self.slots[i], self.mkeys[i]) for i in range(NSLOT) if self.mkeys[i] is not None]
-        for a in range(len(live)):
-            for b in range(a + 1, len(live)):
-                same_obj = live[a][1] is live[b][1]
-                same_key = live[a][2] == live[b][2]
+        # every ctype this system ever obtained and that is STILL ALIVE (kept by a reference cycle, by an FFI
+        # object's cache, by a module's type table ...) is a live ctype in the sense of the statement
+        extra = []
+        for key, w in self.ghosts:
+            o = w()
+            if o is not None and not any(o is x[1] for x in live) and not any(o is x[1] for x in extra):
+                extra.append(("ghost", o, key))
+        allv = live + extra
+        for a in range(len(allv)):
+            for b in range(a + 1, len(allv)):
+                same_obj = allv[a][1] is allv[b][1]
+                same_key = allv[a][2] == allv[b][2]
                 if same_obj != same_key:
                     return {"kind": "distinct-objects-for-one-type" if same_key else "one-object-for-two-types",
-                            "keys": [live[a][2], live[b][2]]}
+                            "keys": [allv[a][2], allv[b][2]], "where": [allv[a][0], allv[b][0]]}
+        for _, obj, key in extra:
+            COUNT["live_type_outside_slots_rebuilt:" + (
+                "held-by-ffi" if any(key in ks for ks in self.held.values()) else
+                "in-cycle" if key in self.limbo else "other")] += 1
+            again = self.construct(key)
+            if again is not obj:
+                return {"kind": "rebuild-of-live-type-is-another-object", "key": key, "via": "ctor",
+                        "holder": "not-in-a-slot"}
+            del again
+        del extra, allv
         for i, obj, key in live:
             for via in ("ctor", "compiled", "ctor-arr"):
-                again = build_via(key, via)
+                if not T.spellings(key, via):
+                    continue
+                again = self.build_via(key, via)
                 if again is not obj:
                     return {"kind": "rebuild-of-live-type-is-another-object", "key": key, "via": via}
                 del again
-            # (the printed name of a function type keeps the spelling of the arguments it was first built
-            #  with -- 'int(*)(int[])' -- which the statement does not speak about: not compared there)
-            if key != "int(*)(int*)" and obj.cname.replace(" ", "") != key.replace(" ", ""):
+            cn = T.CNAME[key]
+            if cn is not None and obj.cname.replace(" ", "") != cn.replace(" ", ""):
                 return {"kind": "wrong-type-built", "key": key, "cname": obj.cname}
+            bad = self._components(obj, key, B)
+            if bad:
+                return {"kind": "component-is-another-object", "key": key, "component": bad}
+        return None
+
+    def _components(self, obj, key, B):
+        """ctype objects reached by navigation (.item / .args / .result) are live ctypes too; the other parts of
+        the structural key (.length / .ellipsis / .abi) must be the ones asked for."""
+        t = TERMS[key]
+        COUNT["components_compared:" + t[0]] += 1
+        if t[0] in ("ptr", "arr"):
+            if obj.item is not T.construct_term(t[1], self.env):
+                return "item"
+            if t[0] == "arr" and obj.length != t[2]:
+                return "length"
+        elif t[0] == "fn":
+            args = obj.args
+            if len(args) != len(t[1]):
+                return "nargs"
+            for n, a in enumerate(t[1]):
+                if args[n] is not T.construct_term(a, self.env):
+                    return "args[%d]" % n
+            if obj.result is not T.construct_term(t[2], self.env):
+                return "result"
+            if bool(obj.ellipsis) != t[3]:
+                return "ellipsis"
+            if obj.abi != (B.FFI_DEFAULT_ABI if t[4] is None else t[4]):
+                return "abi"
         return None
 
     def key(self):
-        return (tuple(self.mkeys), tuple(sorted(self.watch)), tuple(sorted(self.sliced)))
+        return (tuple(self.mkeys), tuple(sorted((i, w[1], w[2]) for i, w in self.watch.items())),
+                tuple(sorted(self.sliced)), tuple(sorted(self.limbo)),
+                tuple(sorted((h, tuple(sorted(ks))) for h, ks in self.held.items())))
 
     def close(self):
-        for i in range(NSLOT):
-            self.mkeys[i] = None
-            self.slots[i] = None
+        seen = set(self.keys_alpha) | set(k for k, _ in self.ghosts)
+        for _ in range(2):              # (a watcher's callback may refill a slot once; watchers fire only once)
+            for i in range(NSLOT):
+                self.mkeys[i] = None
+                self.slots[i] = None
+        self.holders.clear()
+        self.held.clear()
         if self.pending:
-            return self.pending.pop(0)
+            return self._info(self.pending.pop(0))
         _gc.collect()
         if self.pending:
-            return self.pending.pop(0)
+            return self._info(self.pending.pop(0))
         # every type rebuilt after everything was freed is unique again
-        for key in self.keys_alpha:
-            a = construct(key)
-            b = build_via(key, "compiled")
+        for key in sorted(seen):
+            a = self.construct(key)
+            b = self.build_via(key, "compiled") if T.spellings(key, "compiled") else self.construct(key)
             if a is not b:
-                return {"kind": "rebuilt-type-not-unique", "key": key}
+                return self._info({"kind": "rebuilt-type-not-unique", "key": key})
         return None
 
 
-def run(ctx):
-    _gc.disable()
-    small = ["int*", "int**", "int[]", "int(*)(int*)"]
-    allk = [k for k, _ in TYPES]
-    if ctx.quick:
-        plan = [(allk, 2, 2), (small, 4, 2)]
+# ---- cache population: dict growth / shrink and address reuse of freed ctypes ---------------------------------
+def _population(item):
+    """N types of one shape; half of them dropped and collected; other types built on the freed addresses; all
+    rebuilt: survivors identical, the others fresh, pairwise distinct and right; a second rebuild identical."""
+    import _cffi_backend as B
+    shape, n = item
+    i = B.new_primitive_type("int")
+    ip = B.new_pointer_type(i)
+
+    def make_all():
+        out = []
+        if shape == "array":
+            for k in range(n):
+                out.append(B.new_array_type(ip, k))
+        elif shape == "pointer":
+            t = i
+            for k in range(n):
+                t = B.new_pointer_type(t)
+                out.append(t)
+        elif shape == "function":
+            for k in range(n):
+                out.append(B.new_function_type((i,) * k, i, False))
+        else:
+            raise InfraError(shape)
+        return out
+
+    def right(objs):
+        if len(set(id(o) for o in objs)) != len(objs):
+            return "two-types-share-one-object"
+        for k, o in enumerate(objs):
+            if shape == "array" and (o.length != k or o.item is not i):
+                return "wrong-array"
+            if shape == "pointer" and o.item is not (objs[k - 1] if k else i):
+                return "wrong-pointee"
+            if shape == "function" and (len(o.args) != k or o.result is not i):
+                return "wrong-function"
+        return None
+
+    def same(a, b):
+        return all(x is y for x, y in zip(a, b))
+
+    _gc.collect()
+    first = make_all()
+    bad = right(first)
+    if bad:
+        return {"step": "first-build", "what": bad}
+    if not same(first, make_all()):
+        return {"step": "second-build", "what": "rebuild-of-live-type-is-another-object"}
+    # drop half: every 2nd array / function type, the upper half of the pointer chain (each level's cache key is the
+    # ADDRESS of the level below; the chain is freed top-down)
+    if shape == "pointer":
+        keep = [o if k < n // 2 else None for k, o in enumerate(first)]
     else:
-        plan = [(allk, 3, 3), (small, 5, 3)]
+        keep = [o if k % 2 == 0 else None for k, o in enumerate(first)]
+    del first
+    _gc.collect()
+    # let OTHER types take the freed addresses before the dropped ones are asked for again
+    soak = [B.new_array_type(ip, n + 7 + k) for k in range(n // 2)]
+    soak += [B.new_function_type((ip,) * (k + 1), ip, True) for k in range(min(n // 4, 200))]
+    again = make_all()
+    bad = right(again)
+    if bad:
+        return {"step": "rebuild-after-drop", "what": bad}
+    for k, o in enumerate(keep):
+        if o is not None and again[k] is not o:
+            return {"step": "rebuild-after-drop", "what": "survivor-rebuilt-as-another-object"}
+    soak_ids = set(id(o) for o in soak)          # (the soak types are alive: their ids are theirs alone)
+    if any(id(o) in soak_ids for o in again):
+        return {"step": "rebuild-after-drop", "what": "one-object-for-two-types"}
+    if not same(again, make_all()):
+        return {"step": "third-build", "what": "rebuild-of-live-type-is-another-object"}
+    nfresh = sum(1 for o in keep if o is None)
+    del keep, again, soak
+    _gc.collect()
+    a, b = make_all(), make_all()
+    if right(a) or not same(a, b):
+        return {"step": "rebuild-after-all-freed", "what": right(a) or "rebuilt-type-not-unique"}
+    return {"ok": True, "types": n, "dropped_and_rebuilt": nfresh}
+
+
+# ---- the plan -------------------------------------------------------------------------------------------------
+def _plan(quick):
+    """(family, [cfg...], depth, d0): every cfg is a finite alphabet that is explored exhaustively to `depth`."""
+    allk = T.BASE12 + T.ABI3 + T.SHAPES + ["unsigned int", "long", "_Bool", "int(*)[3]"]
+    small = ["int*", "int**", "int[]", "int(*)(int*)"]
+    abik = ["int(*)(int)", "int(*)(int)@3", "int(*)(int)@4", "int(*)(int,...)", "int(*)(int,...)@3"]
+    spellk = [k for k in T.PLAIN if len(T.spellings(k, "module")) > 1]
+    hold_vias = ["ctor", "inline-shared", "compiled-shared", "module", "module-func"]
+    hold_ops = ["dropffi", "collect0", "watch:same-ctor"]
+    watch_ops = ["slice", "slicekeep", "dropall"]
+    whats = ["same-ctor", "same-inline", "pointer-to", "array-of"]
+    shared = ["inline-shared", "compiled-shared", "module"]
+
+    def c(name, keys, **kw):
+        d = {"name": name, "keys": list(keys)}
+        d.update(kw)
+        return d
+
+    plan = []
+    if quick:
+        plan.append(("all", [c("all", allk, vias=DEFAULT_VIAS + ["addressof"])], 2, 2))
+        plan.append(("small", [c("small", small)], 4, 2))
+        plan.append(("abi", [c("abi", abik, vias=["ctor", "compiled"], ops=["watch:same-ctor"])], 4, 4))
+        plan.append(("holders", [c("holders", ["int*", "int(*)(int)"], vias=hold_vias, ops=hold_ops)], 4, 2))
+        plan.append(("spell", [c("spell:" + k, [k], vias=list(T.PARSER_VIAS), spell=True, ops=[]) for k in spellk],
+                     2, 2))
+        plan.append(("watch", [c("watch:" + w, ["int*"], vias=["ctor"], ops=watch_ops + ["watch:" + w])
+                               for w in whats], 5, 2))
+        plan.append(("nav", [c("nav", ["int*", "char*", "int**", "int[]", "int[2]", "int(*)[2]"],
+                               vias=["ctor", "addressof"], ops=["slice", "slicekeep", "collect0"])], 4, 2))
+    else:
+        plan.append(("all", [c("all", allk, vias=DEFAULT_VIAS + ["addressof"])], 2, 2))
+        plan.append(("all", [c("base+abi", T.BASE12 + T.ABI3)], 3, 3))
+        plan.append(("all", [c("shapes", T.SHAPES + ["int(*)[3]"], vias=DEFAULT_VIAS + ["addressof"])], 3, 3))
+        plan.append(("small", [c("small", small)], 5, 3))
+        plan.append(("abi", [c("abi", abik, vias=["ctor", "compiled"], ops=["watch:same-ctor"])], 4, 4))
+        plan.append(("holders", [c("holders", ["int", "int*", "int*[2]", "int(*)(int)"], vias=hold_vias,
+                                   ops=hold_ops)], 3, 3))
+        plan.append(("holders", [c("holders:deep", ["int*", "int(*)(int)"], vias=hold_vias, ops=hold_ops)], 4, 3))
+        plan.append(("spell", [c("spell:" + k, [k], vias=list(T.PARSER_VIAS), spell=True, ops=[]) for k in spellk],
+                     2, 2))
+        plan.append(("spell", [c("spell3:" + k, [k], vias=shared, spell=True, ops=["dropffi"]) for k in spellk],
+                     3, 3))
+        plan.append(("watch", [c("watch:" + w, ["int*"], vias=["ctor"], ops=watch_ops + ["watch:" + w])
+                               for w in whats], 6, 3))
+        plan.append(("watch", [c("watch:mixed1", ["int*"], vias=["ctor"],
+                                 ops=watch_ops + ["watch:" + w for w in whats])], 5, 3))
+        plan.append(("watch", [c("watch:mixed", ["int*", "int[]"], vias=["ctor", "inline"],
+                                 ops=watch_ops + ["watch:" + w for w in whats])], 4, 3))
+        plan.append(("nav", [c("nav", ["int*", "char*", "int**", "int[]", "int[2]", "int(*)[2]"],
+                               vias=["ctor", "addressof"], ops=["slice", "slicekeep", "collect0"])], 5, 3))
+    return plan
+
+
+POPULATION = [("array", 100), ("array", 3000), ("pointer", 100), ("pointer", 3000), ("function", 100),
+              ("function", 1000)]
+
+
+def _work(item):
+    """One pool item: a population, or the exploration of one subtree of one alphabet (the two stages of
+    hist.run_parallel, here for all families in one pool so that the per-family counters come back)."""
+    if item[0] == "population":
+        return _population(item[1])
+    import mmap
+    _, cfg, prefix, depth, d0, want_frontier = item
+    path = hist._journal_path(item)
+    with open(path, "wb") as f:
+        f.write(b"\0" * hist._JSIZE)
+    f = open(path, "r+b")
+    hist._journal = mmap.mmap(f.fileno(), hist._JSIZE)      # crash attribution: the history about to be executed
+    COUNT.clear()
+    t0 = time.time()
+    try:
+        st = hist.explore(Sys, cfg, depth, min(d0, depth) if want_frontier else d0, tuple(prefix), True,
+                          want_frontier=want_frontier)
+        return st, dict(COUNT), time.time() - t0
+    finally:
+        hist._journal.close()
+        f.close()
+        hist._journal = None
+
+
+def run(ctx):
+    import cffi                 # noqa: F401  (imported before the freeze below)
+    import _cffi_backend        # noqa: F401
+    _gc.disable()
+    T.module_source()           # generated once, inherited by the forked workers
+    # everything that exists now (modules, parser tables) is taken out of the collector's sight: the collections of
+    # the histories then only look at what the histories created (2x faster, no copy-on-write storm in the workers)
+    _gc.collect()
+    _gc.freeze()
+    plan = _plan(ctx.quick)
+    fam_stats = collections.OrderedDict()       # (family, depth) -> Stats
+    fam_of = {}
+    counters = collections.Counter()
+    fam_secs = collections.Counter()
     total = hist.Stats()
-    crashes_all = []
-    for keys, depth, d0 in plan:
-        st, crashes = hist.run_parallel(Sys, [{"keys": keys}], depth, d0, split=2 if depth > 2 else 1)
+    crashes = []
+    viol = []
+    pops = {}
+
+    def take(item, r):
+        if isinstance(r, pool.WorkerError):
+            raise InfraError(r.tb)
+        if item[0] == "population":
+            pops[item[1]] = r
+            return None
+        if isinstance(r, pool.Crash):
+            crashes.append((item, r, hist._read_journal(item)))
+            return None
+        st, cnt, secs = r
+        if item[5] and jobs[item[1]["name"]][1] > item[3]:
+            st.samples = []                 # (prefixes, not complete histories)
+        fam_secs[fam_of[item[1]["name"]]] += secs
+        fam_stats[fam_of[item[1]["name"]]].merge(st)
         total.merge(st)
-        crashes_all.extend(crashes)
-        ctx.count("transitions_%dkeys_depth%d" % (len(keys), depth), st.transitions)
-    for item, cr, last in crashes_all:
-        ctx.violation({"kind": "crash"}, {"prefix": item[1], "last_history": last, "how": cr.describe()})
-    for h, info in total.violations:
-        ctx.violation({"kind": info.get("kind")}, {"history": h, "info": info})
+        counters.update(cnt)
+        viol.extend(st.violations)
+        return st
+
+    stage1 = [("population", p) for p in POPULATION]
+    jobs = {}
+    for fam, cfgs, depth, d0 in plan:
+        fam_stats.setdefault((fam, depth), hist.Stats())
+        for cfg in cfgs:
+            fam_of[cfg["name"]] = (fam, depth)
+            jobs[cfg["name"]] = (cfg, depth, d0)
+            stage1.append(("explore", cfg, (), min(2 if depth > 2 else 1, depth), d0, True))
+    stage2 = []
+    for item, r in pool.pmap(_work, [[it] for it in stage1], contain_crashes=True, item_timeout=3600):
+        st = take(item, r)
+        if st is not None:
+            cfg, depth, d0 = jobs[item[1]["name"]]
+            if depth > item[3]:
+                for h in st.frontier:
+                    stage2.append(("explore", cfg, h, depth, d0, False))
+    # the deepest alphabets first (their subtrees are the big ones)
+    stage2.sort(key=lambda it: -it[3])
+    ctx.log("stage 1 done: %d subtrees to explore" % len(stage2))
+    for item, r in pool.pmap(_work, [[it] for it in stage2], contain_crashes=True, item_timeout=3600):
+        take(item, r)
+    for (fam, depth), st in fam_stats.items():
+        ctx.count("transitions_%s_depth%d" % (fam, depth), st.transitions)
+        ctx.count("family_" + fam, st.transitions)
+        ctx.log("family %s depth %d: %d transitions, %d states, %.0f worker-seconds" % (
+            fam, depth, st.transitions, st.states, fam_secs[(fam, depth)]))
+    for item, cr, last in crashes:
+        ctx.violation({"kind": "crash", "family": fam_of[item[1]["name"]][0]},
+                      {"prefix": item[2], "last_history": last, "how": cr.describe(), "cfg": item[1]})
+    for h, info in viol:
+        cfg = info.get("cfg") or {}
+        sig = {"kind": info.get("kind"), "family": fam_of.get(cfg.get("name"), ("?",))[0]}
+        for extra in ("via", "holder", "component", "what"):
+            if info.get(extra) is not None:
+                sig[extra] = info[extra]
+        last = [o for o in h if tuple(o) != ("<close>",)][-1]
+        sig["last_op"] = last[0] if last[0] != "build" else "build:" + last[2]
+        ctx.violation(sig, {"history": h, "info": info})
+    npop = 0
+    for p in POPULATION:
+        r = pops.get(p)
+        if isinstance(r, pool.Crash):
+            ctx.violation({"kind": "crash", "family": "population", "shape": p[0]},
+                          {"population": list(p), "how": r.describe()})
+        elif not r.get("ok"):
+            ctx.violation({"kind": r["what"], "family": "population", "shape": p[0], "step": r["step"]},
+                          {"population": list(p), "info": r})
+        else:
+            npop += 1
+            ctx.count("population_%s_types" % p[0], r["types"])
+            ctx.count("population_%s_dropped_and_rebuilt" % p[0], r["dropped_and_rebuilt"])
+    for k, v in sorted(counters.items()):
+        ctx.count("oracle_" + k, v)
     for k, v in sorted(total.op_hist.items()):
         ctx.count("op_" + str(k), v)
     for smp in total.samples:
@@ -244,23 +677,46 @@ def run(ctx):
     cov = {
         "states": total.states, "transitions": total.transitions,
         "traces_validated_against_impl": total.transitions, "max_depth": total.max_depth,
-        "unmerged_depth_d0": [p[2] for p in plan], "merged_states_skipped": total.merged,
+        "unmerged_depth_d0": [p[3] for p in plan], "merged_states_skipped": total.merged,
         "histories_closed": total.histories_closed,
         "evaluations": total.transitions, "distinct_nontrivial": total.states,
-        "rule": "a state is an operation history (merged by model key beyond d0); each transition runs on real ctypes",
-        "plan": [{"type_expressions": len(k), "depth": d, "d0": z} for k, d, z in plan],
+        "rule": "a state is an operation history (merged by model key beyond d0); each transition runs on real "
+                "ctypes.  Families: all / small / abi (function types differing in ABI) / holders (long-lived FFI "
+                "objects and module instances, drop of the FFI) / spell (every spelling of a type, 5 parser routes) "
+                "/ watch (4 kinds of rebuilding weakref callbacks, kept slice types) / nav (slice, addressof) are "
+                "histories; population (%d populations of 100..3000 types, half dropped and rebuilt on reused "
+                "addresses) is counted in class_histogram only" % npop,
+        "plan": [{"family": f, "alphabets": len(cf), "type_expressions": len(set(k for x in cf for k in x["keys"])),
+                  "depth": d, "d0": z} for f, cf, d, z in plan],
+        "populations": npop,
         "exhaustive": True,
     }
-    return ctx.finish(cov, ["gc disabled during the search; collections only where a history says"])
+    return ctx.finish(cov, ["gc disabled during the search; collections only where a history says",
+                            "objects that exist before the search starts (modules, parser tables) are gc.freeze()d"])
 
 
 def replay(detail):
     _gc.disable()
+    if detail.get("population") is not None:
+        r = _population(tuple(detail["population"]))
+        print(detail["population"], "->", r)
+        return 0 if r.get("ok") else 1
     h = detail.get("history")
+    if h is None:
+        h = detail.get("last_history")
+        if isinstance(h, str):
+            import ast
+            try:
+                h = ast.literal_eval(h)
+            except (ValueError, SyntaxError):
+                h = None
     if h is None:
         print(detail)
         return 1
-    s = Sys({"keys": [k for k, _ in TYPES]})
+    cfg = (detail.get("info") or {}).get("cfg") or detail.get("cfg")
+    if not cfg:
+        cfg = {"name": "replay", "keys": list(TERMS), "vias": DEFAULT_VIAS, "ops": ALL_OPS}
+    s = Sys(cfg)
     for op in [tuple(o) for o in h if tuple(o) != ("<close>",)]:
         bad = s.apply(op)
         print(op, "->", bad)
